@@ -33,6 +33,9 @@ pub struct Scenario {
     pub timeout_ms: u16,
     pub ops: Vec<Op>,
     pub max_connections: usize,
+    /// filters whose logs exist from the start (what is published on them can be counted)
+    #[serde(default)]
+    pub init_filters: Vec<String>,
 }
 
 #[derive(Clone, Debug, Default, PartialEq, Eq)]
@@ -46,6 +49,10 @@ pub struct Outcome {
     pub task_finished: bool,
     pub subscriptions: usize,
     pub panicked: Option<String>,
+    /// (filter, number of messages in its log) at the end
+    pub filter_entries: Vec<(String, u64)>,
+    /// (topic, payload) of the retained messages at the end
+    pub retained: Vec<(String, Vec<u8>)>,
 }
 
 fn settings(sc: &Scenario) -> ConnectionSettings {
@@ -91,16 +98,41 @@ pub fn run_scenario(sc: &Scenario) -> Outcome {
         max_segment_size: 1 << 20,
         max_segment_count: 4,
         custom_segment: None,
-        initialized_filters: None,
+        initialized_filters: if sc.init_filters.is_empty() { None } else { Some(sc.init_filters.clone()) },
         shared_subscriptions_strategy: Default::default(),
     };
     let mut router = Router::new(0, cfg);
     let tx = router.verif_link();
     let done = Arc::new(AtomicBool::new(false));
     let done2 = done.clone();
+    // counts the passes in which the router thread found its channel empty: the net thread
+    // waits for two of them after every step, so that what the connection task put on the
+    // channel has been handled (and answered) before the script goes on — the outcome
+    // must not depend on how the two threads are scheduled
+    let idle_passes = Arc::new(std::sync::atomic::AtomicU64::new(0));
+    let idle2 = idle_passes.clone();
     let sc2 = sc.clone();
     let net = std::thread::spawn(move || {
         let rt = tokio::runtime::Builder::new_current_thread().enable_time().start_paused(true).build().unwrap();
+        let settle = move || {
+            let idle = idle2.clone();
+            async move {
+                for _ in 0..4 {
+                    for _ in 0..60 {
+                        tokio::task::yield_now().await;
+                    }
+                    let g0 = idle.load(Ordering::SeqCst);
+                    let mut spins = 0;
+                    while idle.load(Ordering::SeqCst) < g0 + 2 && spins < 20_000 {
+                        std::thread::sleep(Duration::from_micros(50));
+                        spins += 1;
+                    }
+                }
+                for _ in 0..60 {
+                    tokio::task::yield_now().await;
+                }
+            }
+        };
         let r = rt.block_on(async move {
             let (near, mut far) = tokio::io::duplex(1 << 16);
             let conf = Arc::new(settings(&sc2));
@@ -125,13 +157,12 @@ pub fn run_scenario(sc: &Scenario) -> Outcome {
                         closed = true;
                     }
                 }
-                for _ in 0..60 {
-                    tokio::task::yield_now().await;
-                }
+                settle().await;
                 if closed {
                     if let Some(f) = far_opt.take() {
                         let _ = f.shutdown().await;
                     }
+                    settle().await;
                 }
                 if let Some(f) = far_opt.as_mut() {
                     let mut tmp = [0u8; 4096];
@@ -146,9 +177,7 @@ pub fn run_scenario(sc: &Scenario) -> Outcome {
             if closed {
                 drop(far);
             }
-            for _ in 0..200 {
-                tokio::task::yield_now().await;
-            }
+            settle().await;
             let finished = task.is_finished();
             let panicked = if finished {
                 match task.await {
@@ -187,6 +216,7 @@ pub fn run_scenario(sc: &Scenario) -> Outcome {
                 }
             }
         } else if !progressed {
+            idle_passes.fetch_add(1, Ordering::SeqCst);
             std::thread::sleep(Duration::from_micros(50));
         }
         spins += 1;
@@ -200,7 +230,9 @@ pub fn run_scenario(sc: &Scenario) -> Outcome {
     {
         let snap = router.verif_snapshot();
         out.registered = snap.connection_map.iter().map(|(k, _)| k.clone()).collect();
-        out.subscriptions = snap.subscription_map.len() + snap.filters.len();
+        out.subscriptions = snap.subscription_map.len() + snap.filters.len() - sc.init_filters.len().min(snap.filters.len());
+        out.filter_entries = snap.filters.iter().map(|f| (f.filter.clone(), f.entries)).collect();
+        out.retained = snap.retained.iter().map(|(t, p, _)| (t.clone(), p.clone())).collect();
     }
     out
 }
@@ -295,7 +327,7 @@ pub fn cases(thorough: bool) -> Vec<Case> {
                                     client_id: id.to_string(),
                                     clean,
                                     login,
-                                    sc: Scenario { v5_listener, auth, timeout_ms: 1000, ops, max_connections: 10 },
+                                    sc: Scenario { v5_listener, auth, timeout_ms: 1000, ops, max_connections: 10, init_filters: vec![] },
                                 });
                             }
                         }
@@ -332,7 +364,7 @@ pub fn cases(thorough: bool) -> Vec<Case> {
                     client_id: "a".into(),
                     clean: true,
                     login: 3,
-                    sc: Scenario { v5_listener, auth, timeout_ms: 1000, ops, max_connections: 10 },
+                    sc: Scenario { v5_listener, auth, timeout_ms: 1000, ops, max_connections: 10, init_filters: vec![] },
                 });
             }
         }
@@ -455,7 +487,7 @@ pub fn conformance() -> Vec<(bool, String)> {
             let mut ops = e.ops.clone();
             // let zero-length timers (the will delay) fire
             ops.push(Op::Advance(10));
-            let sc = Scenario { v5_listener: v5, auth: 0, timeout_ms: 1000, ops, max_connections: 10 };
+            let sc = Scenario { v5_listener: v5, auth: 0, timeout_ms: 1000, ops, max_connections: 10, init_filters: vec![] };
             let o = run_scenario(&sc);
             let got: Vec<&str> = o.events.iter().skip_while(|k| *k != "Connect").skip(1).map(|s| s.as_str()).collect();
             // the model allows the Disconnect event to be absent when the link noticed the
@@ -466,4 +498,162 @@ pub fn conformance() -> Vec<(bool, String)> {
         }
     }
     out
+}
+
+// ------------------------------------------------------------------------------------
+// C16, full stack: the will through the real connection task
+// ------------------------------------------------------------------------------------
+//
+// E1 plays the link itself (it sends `PublishWill` when a link ends), so whether the real
+// `remote()` task asks the router for the will after every kind of ending is not seen there.
+// Here one client connects through `remote()` with a will on topic `w` (whose log exists
+// from the start, so what is published on it can be counted), its connection ends in one
+// of the ways below, and the log of `w` must hold exactly one message (the will) — or none,
+// if the client sent DISCONNECT first or registered no will.
+
+const P16: &str = "C16";
+
+#[derive(Clone, Debug, Serialize, Deserialize)]
+pub struct WillCase {
+    pub v5: bool,
+    /// 0 no will, 1 QoS 0, 2 QoS 1 retained, 3 (MQTT 5) QoS 1 with a will delay of 5 s
+    pub will: u8,
+    pub ending: u8,
+    pub name: String,
+    /// the will has to be published (false: must not be)
+    pub expect_will: bool,
+    pub sc: Scenario,
+}
+
+fn connect_with_will(v5: bool, will: u8) -> Vec<u8> {
+    let mut b = BytesMut::new();
+    if v5 {
+        use rumqttc::v5::mqttbytes::v5 as c5;
+        use rumqttc::v5::mqttbytes::QoS;
+        let c = c5::Connect { keep_alive: 10, client_id: "owner".to_string(), clean_start: true, properties: None };
+        let w = match will {
+            0 => None,
+            1 => Some(c5::LastWill::new("w", b"gone".to_vec(), QoS::AtMostOnce, false, None)),
+            2 => Some(c5::LastWill::new("w", b"gone".to_vec(), QoS::AtLeastOnce, true, None)),
+            _ => {
+                let p = c5::LastWillProperties {
+                    delay_interval: Some(5),
+                    payload_format_indicator: None,
+                    message_expiry_interval: None,
+                    content_type: None,
+                    response_topic: None,
+                    correlation_data: None,
+                    user_properties: vec![],
+                };
+                Some(c5::LastWill::new("w", b"gone".to_vec(), QoS::AtLeastOnce, false, Some(p)))
+            }
+        };
+        c5::Packet::Connect(c, w, None).write(&mut b, None).unwrap();
+    } else {
+        use rumqttc::mqttbytes::v4 as c4;
+        use rumqttc::mqttbytes::QoS;
+        let mut c = c4::Connect::new("owner");
+        c.keep_alive = 10;
+        c.clean_session = true;
+        c.last_will = match will {
+            0 => None,
+            1 => Some(c4::LastWill::new("w", b"gone".to_vec(), QoS::AtMostOnce, false)),
+            _ => Some(c4::LastWill::new("w", b"gone".to_vec(), QoS::AtLeastOnce, true)),
+        };
+        c4::Packet::Connect(c).write(&mut b, usize::MAX).unwrap();
+    }
+    b.to_vec()
+}
+
+fn sys_subscribe(v5: bool) -> Vec<u8> {
+    let mut b = BytesMut::new();
+    if v5 {
+        use rumqttc::v5::mqttbytes::v5 as c5;
+        use rumqttc::v5::mqttbytes::QoS;
+        let mut s = c5::Subscribe::new(c5::Filter::new("$SYS/x", QoS::AtMostOnce), None);
+        s.pkid = 1;
+        c5::Packet::Subscribe(s).write(&mut b, None).unwrap();
+    } else {
+        use rumqttc::mqttbytes::v4 as c4;
+        use rumqttc::mqttbytes::QoS;
+        let mut s = c4::Subscribe::new("$SYS/x", QoS::AtMostOnce);
+        s.pkid = 1;
+        c4::Packet::Subscribe(s).write(&mut b, usize::MAX).unwrap();
+    }
+    b.to_vec()
+}
+
+pub fn will_cases() -> Vec<WillCase> {
+    let disconnect: Vec<u8> = vec![0xe0, 0x00];
+    let pingreq: Vec<u8> = vec![0xc0, 0x00];
+    let bad_ack: Vec<u8> = vec![0x40, 0x02, 0x03, 0xe7];
+    let bad_rel: Vec<u8> = vec![0x62, 0x02, 0x03, 0xe7];
+    let half_publish: Vec<u8> = vec![0x30, 0x0a, 0x00];
+    let mut v = vec![];
+    for v5 in [false, true] {
+        let wills: &[u8] = if v5 { &[0, 1, 2, 3] } else { &[0, 1, 2] };
+        for &will in wills {
+            // (name, ops after the CONNECT, did the client send DISCONNECT first)
+            let endings: Vec<(&str, Vec<Op>, bool)> = vec![
+                ("peer closes the socket", vec![Op::Close], false),
+                ("DISCONNECT, then the socket is closed", vec![Op::Write(disconnect.clone()), Op::Close], true),
+                ("keep-alive expiry", vec![Op::Advance(16_000)], false),
+                ("undecodable frame", vec![Op::Write(vec![0x00, 0x00])], false),
+                ("unsolicited PUBACK (the router closes)", vec![Op::Write(bad_ack.clone())], false),
+                ("PUBREL for nothing recorded (the router closes)", vec![Op::Write(bad_rel.clone())], false),
+                ("PINGREQ and DISCONNECT in one write", vec![Op::Write([pingreq.clone(), disconnect.clone()].concat()), Op::Close], true),
+                ("DISCONNECT and an unsolicited PUBACK in one write", vec![Op::Write([disconnect.clone(), bad_ack.clone()].concat()), Op::Close], true),
+                ("half a PUBLISH, then the socket is closed", vec![Op::Write(half_publish.clone()), Op::Close], false),
+                ("SUBSCRIBE to $SYS/x (the router closes)", vec![Op::Write(sys_subscribe(v5))], false),
+                ("PINGREQ answered, then the socket is closed", vec![Op::Write(pingreq.clone()), Op::Close], false),
+            ];
+            for (k, (name, tail, disconnected)) in endings.into_iter().enumerate() {
+                let mut ops = vec![Op::Write(connect_with_will(v5, will))];
+                ops.extend(tail);
+                // zero-length timers and the will delay
+                ops.push(Op::Advance(10));
+                ops.push(Op::Advance(6_000));
+                v.push(WillCase {
+                    v5,
+                    will,
+                    ending: k as u8,
+                    name: name.to_string(),
+                    expect_will: will != 0 && !disconnected,
+                    sc: Scenario { v5_listener: v5, auth: 0, timeout_ms: 1000, ops, max_connections: 10, init_filters: vec!["w".to_string()] },
+                });
+            }
+        }
+    }
+    v
+}
+
+pub fn judge_will(c: &WillCase, o: &Outcome) -> Vec<Violation> {
+    let mut v = vec![];
+    let ctx = format!("MQTT {} client, will kind {}, ending: {}", if c.v5 { 5 } else { 4 }, c.will, c.name);
+    if let Some(p) = &o.panicked {
+        v.push(Violation::new(P16, "connection_task_panic", format!("{ctx}: {p}")));
+        return v;
+    }
+    if !o.events.iter().any(|e| e == "Connect") {
+        v.push(Violation::new(P16, "will_owner_not_admitted", format!("{ctx}: the CONNECT never reached the router (events {:?})", o.events)));
+        return v;
+    }
+    let published = o.filter_entries.iter().find(|(f, _)| f == "w").map(|(_, n)| *n).unwrap_or(0);
+    // (a broker that does not close the connection for the offending packet owes no will:
+    // the claim is about connections that have ended)
+    let ended = !o.registered.iter().any(|r| r == "owner");
+    let expect_will = c.expect_will && ended;
+    let c = &WillCase { expect_will, ..c.clone() };
+    let want = if c.expect_will { 1 } else { 0 };
+    if published != want {
+        let code = if published < want { "will_not_published" } else if want == 0 { "will_published_unexpectedly" } else { "will_published_twice" };
+        v.push(Violation::new(P16, code, format!("{ctx}: {published} message(s) on the will topic, expected {want} (events on the router channel: {:?})", o.events)));
+    }
+    if c.expect_will && c.will == 2 && !o.retained.iter().any(|(t, p)| t == "w" && p == b"gone") {
+        v.push(Violation::new(P16, "will_retain_lost", format!("{ctx}: the will was registered with retain, nothing is retained on its topic")));
+    }
+    if (!c.expect_will || c.will != 2) && o.retained.iter().any(|(t, _)| t == "w") {
+        v.push(Violation::new(P16, "will_retained_unexpectedly", format!("{ctx}: a message is retained on the will topic")));
+    }
+    v
 }
